@@ -12,6 +12,7 @@ package c01a
 import (
 	"encoding/json"
 	"fmt"
+	"math"
 	"os"
 	"runtime/debug"
 	"sort"
@@ -734,6 +735,14 @@ func (w *world) doUpgrade() (callInfo, []verdict) {
 		}
 		if over && !first {
 			ci.Outcome += "+inherited-over-plan(" + valueClass(cur) + "-step)"
+			// "when the workload is scaled mid-release it holds for percentage steps relative to the new size": after a
+			// scale-up the controller has recomputed the batch for the new size; what its knob now allows is judged
+			// against the percentage step at that size, with one pod of granularity (ceil of the 1% slack)
+			if strings.HasSuffix(class, "scale-up") && valueClass(cur) == "percent" && float64(after-ci.Planned) > math.Ceil(0.01*float64(w.size)) {
+				vs = append(vs, verdict{"C01/arith/exceeds-after-scale-up/" + w.k.Name + "/" + class,
+					fmt.Sprintf("after the scale-up to %d replicas UpgradeBatch(batch %d = %s) on %s leaves [%s]: %d new-revision pods allowed, the percentage step plans %d relative to the new size (slack %.0f)",
+						w.size, batch, cur.String(), w.k.Name, ka, after, ci.Planned, math.Ceil(0.01*float64(w.size)))})
+			}
 		}
 	}
 	if err != nil {
